@@ -4,14 +4,23 @@ A case is a set of per-process event log files (1-5 files named `*events.log`, p
 the glob must not pick up), each a list of structured events.  The events are written by the real
 `log_event` through the real event logger; `EventsSummary(output)` is then constructed three times (first:
 consolidates and saves; second: `preload=True`; third: lazy) and read back through `to_json`/`list_events`.
+
+A second case kind, `events.aggregate`, is a HISTORY over one output directory (see `AggGen`): `run-jobs`
+processes (real `JobRunner` objects) start on nodes, log events of their own, job processes append to
+`job-outputs/<job>/events.log` the way `jade/cli/run.py` does, the runners call the REAL
+`JobRunner._aggregate_events`, batches are killed before they aggregate, requeued under the same batch id,
+jobs run again in later batches after a resubmission (which empties `events/`), submitter processes append to
+`submit_jobs_events.log`, and `EventsSummary` is constructed in the middle and at the end.  Compared with
+Model/ReportsAgg.lean; the direct oracle states "every event any process wrote is in the summary exactly once".
 """
 import collections
 import datetime as _dt
 import fnmatch
 import json
 import logging
+import os
 
-from common import Suite, Violation, canon, quiet, scratch_dir
+from common import Suite, Violation, canon, err_enum, quiet, scratch_dir
 
 RESOURCE = ["cpu_stats", "disk_stats", "mem_stats", "net_stats", "process_stats"]
 NAMES = ["hpc_submit", "hpc_job_assigned", "hpc_job_state_change", "bytes_consumed", "unhandled_error",
@@ -82,6 +91,166 @@ def model_event(ev):
     return {"name": ev["name"], "timestamp": ev["timestamp"], "payload": payload_of(ev)}
 
 
+# ----------------------------------------------------------------------------------------------------------
+# histories for `events.aggregate`
+# ----------------------------------------------------------------------------------------------------------
+AGG = "events.aggregate"
+BASE_TS = _dt.datetime(2026, 9, 26, 12, 0, 0)
+OTHER_FILES = ["stats_events.log", "events.log", "xevents.log", "collect_events.log"]
+WRITERS = ("submitter", "runnerStart", "runnerLog", "jobRun", "other")
+
+
+def ts_of(tick):
+    """timestamp string of a tick of the case's clock, in the format `str(datetime.now())` gives"""
+    return str(BASE_TS + _dt.timedelta(microseconds=250000 * tick))
+
+
+class AggGen:
+    """Seeded generator of one history.  Steps (`s`):
+      submitter   {events}                         a jade submit-jobs / try-submit-jobs / resubmit-jobs process
+      runnerStart {rid, batch, node, jobs, events} `jade-internal run-jobs` of batch `batch` starts on node `node`
+      runnerLog   {rid, events}                    that process logs events of its own
+      jobRun      {rid, job, file, events}         a job process of that batch runs (file=false: never opens events.log)
+      aggregate   {rid}                            the runner calls `_aggregate_events`
+      kill        {rid}                            the node dies / the batch is cancelled before the aggregation
+      other       {file, events}                   another process appends to its own top-level file
+      consolidate {preload}                        `EventsSummary(output, preload=…)`
+      resubmit                                     `jade resubmit-jobs` empties events/
+      clear                                        events/ emptied by hand (consolidate from scratch again)
+    """
+
+    def __init__(self, rng, i):
+        self.rng, self.i = rng, i
+        self.tick, self.uid, self.prev = 0, 0, []
+        self.names = rng.sample(NAMES, rng.randint(1, 4))
+        self.odd = rng.random() < .1
+
+    def events(self, lo, hi, resource=False):
+        rng = self.rng
+        out = []
+        t = self.tick
+        for _ in range(rng.randint(lo, hi)):
+            self.uid += 1
+            if self.prev and rng.random() < .07:
+                out.append(json.loads(json.dumps(rng.choice(self.prev))))  # a genuinely identical event
+                continue
+            t = max(0, t + rng.choice([0, 0, 1, 1, 1, 2, -1]))  # mostly increasing within a process
+            names = self.names + ([rng.choice(RESOURCE)] if resource and rng.random() < .25 else [])
+            ts = rng.choice(ODD_TS) if self.odd and rng.random() < .2 else ts_of(t)
+            ev = gen_event(rng, names, [ts], 1000 * self.i + self.uid)
+            if ev["name"] not in RESOURCE:
+                ev["clock"] = ts not in ODD_TS and rng.random() < .5
+                self.prev.append(ev)
+            out.append(ev)
+        return out
+
+    def advance(self):
+        self.tick += self.rng.choice([0, 0, 1, 1, 2, 3])
+
+    def history(self):
+        rng = self.rng
+        njobs = rng.randint(2, 6)
+        jobs = [f"j{k}" for k in range(njobs)]
+        steps, killed = [], []      # killed: (batch, node, jobs) of batches that died before aggregating
+        next_batch, rid = 1, 0
+        rounds = rng.choice([1, 2, 2, 2, 3, 3])
+        summary = False             # events/ may hold a summary
+        for r in range(rounds):
+            if r == 0:
+                if rng.random() < .8:
+                    steps.append({"s": "submitter", "events": self.events(0, 3)})
+            else:
+                steps.append({"s": "submitter", "events": self.events(0, 2)})
+                if (summary and rng.random() < .9) or rng.random() < .25:
+                    steps.append({"s": "resubmit"})
+                    summary = False
+            batches, avail = [], list(jobs)
+            for kb in list(killed):
+                if rng.random() < .6:   # SLURM requeue: same batch id, same node, same configuration
+                    batches.append(kb)
+                    killed.remove(kb)
+                    avail = [j for j in avail if j not in kb[2]]
+            pool = [j for j in avail if r == 0 or rng.random() < .6]
+            if rng.random() < .2:
+                rng.shuffle(pool)
+            groups = [[] for _ in range(rng.choice([1, 1, 2, 2, 3]))]
+            for j in pool:
+                rng.choice(groups).append(j)
+            for g in groups:
+                if g:
+                    batches.append((next_batch, rng.choice([0, 0, 0, 0, 1, 2]), g))
+                    next_batch += 1
+            seqs = []
+            t0 = t1 = self.tick
+            for b, node, js in batches:
+                self.tick = t0 + rng.choice([0, 0, 1, 2])   # the batches of a round overlap in time
+                seq = [{"s": "runnerStart", "rid": rid, "batch": b, "node": node, "jobs": list(js),
+                        "events": self.events(0, 2, resource=True)}]
+                dies = rng.random() < .25
+                run_js = [j for j in js if rng.random() < .85]
+                rng.shuffle(run_js)
+                if dies:
+                    run_js = run_js[:rng.randint(0, len(run_js))]
+                for j in run_js:
+                    self.advance()
+                    m = rng.random()
+                    if m < .12:
+                        seq.append({"s": "jobRun", "rid": rid, "job": j, "file": False, "events": []})
+                    else:
+                        seq.append({"s": "jobRun", "rid": rid, "job": j, "file": True,
+                                    "events": [] if m < .22 else self.events(1, 4)})
+                    if rng.random() < .2:
+                        seq.append({"s": "runnerLog", "rid": rid, "events": self.events(1, 2, resource=True)})
+                seq.append({"s": "kill" if dies else "aggregate", "rid": rid})
+                if dies:
+                    killed.append((b, node, list(js)))
+                seqs.append(seq)
+                rid += 1
+                t1 = max(t1, self.tick)
+            self.tick = t1 + 1
+            while any(seqs):   # the batches of a round run concurrently
+                seq = rng.choice([q for q in seqs if q])
+                steps.append(seq.pop(0))
+                if rng.random() < .04:
+                    f = rng.choice(OTHER_FILES + DECOYS[:2])
+                    steps.append({"s": "other", "file": f, "events": self.events(1, 2)})
+            if rng.random() < .5:
+                steps.append({"s": "submitter", "events": self.events(0, 2)})
+            if r < rounds - 1 and rng.random() < .5:
+                steps.append({"s": "consolidate", "preload": rng.random() < .3})
+                summary = True
+        if summary and rng.random() < .5:
+            steps.append({"s": "clear"})
+        steps += [{"s": "consolidate", "preload": False}, {"s": "consolidate", "preload": True},
+                  {"s": "consolidate", "preload": False}]
+        if rng.random() < .3:
+            steps += [{"s": "clear"}, {"s": "consolidate", "preload": rng.random() < .5}]
+        return {"op": AGG, "steps": steps}
+
+
+def agg_runners(case):
+    """rid -> runnerStart step"""
+    return {st["rid"]: st for st in case["steps"] if st["s"] == "runnerStart"}
+
+
+def agg_line(raw):
+    """one line of an event file -> the model's view of the event"""
+    try:
+        d = json.loads(raw)
+        return {"name": d["name"], "timestamp": d["timestamp"],
+                "payload": {k: d[k] for k in ("source", "category", "message", "event_class", "data")}}
+    except Exception:
+        return {"raw": raw}
+
+
+class RealCodeError(Exception):
+    """the code under test raised inside a history"""
+
+    def __init__(self, where, exc):
+        super().__init__(f"{where}: {type(exc).__name__}: {exc}")
+        self.exc = exc
+
+
 class EventsSuite(Suite):
     name = "events"
 
@@ -94,6 +263,9 @@ class EventsSuite(Suite):
         out = []
         for i in range(n):
             out.append(self._gen(rng, i))
+        m = {"quick": 130, "thorough": 1300}[tier]
+        for i in range(m):
+            out.append(AggGen(rng, n + i).history())
         return out
 
     def _gen(self, rng, i):
@@ -146,21 +318,27 @@ class EventsSuite(Suite):
             lg.removeHandler(h)
 
     def _write(self, path, events, mode="w"):
-        from jade.events import StructuredLogEvent, StructuredErrorLogEvent
-        from jade.loggers import setup_event_logging, log_event, close_event_logging
+        from jade.loggers import setup_event_logging, close_event_logging
         setup_event_logging(str(path), mode=mode)
         try:
-            for ev in events:
-                cls = StructuredErrorLogEvent if ev["cls"] == "StructuredErrorLogEvent" else StructuredLogEvent
-                kwargs = dict(ev["data"])
-                if ev.get("clock"):
-                    FakeDatetime.script = [_dt.datetime.fromisoformat(ev["timestamp"])]
-                else:
-                    kwargs["timestamp"] = ev["timestamp"]
-                event = cls(source=ev["source"], category=ev["category"], name=ev["name"], message=ev["message"], **kwargs)
-                log_event(event)
+            self._log(events)
         finally:
             close_event_logging()
+
+    @staticmethod
+    def _log(events):
+        """the real `log_event` on real event objects, through whatever file the event logger is set up with"""
+        from jade.events import StructuredLogEvent, StructuredErrorLogEvent
+        from jade.loggers import log_event
+        for ev in events:
+            cls = StructuredErrorLogEvent if ev["cls"] == "StructuredErrorLogEvent" else StructuredLogEvent
+            kwargs = dict(ev["data"])
+            if ev.get("clock"):
+                FakeDatetime.script = [_dt.datetime.fromisoformat(ev["timestamp"])]
+            else:
+                kwargs["timestamp"] = ev["timestamp"]
+            event = cls(source=ev["source"], category=ev["category"], name=ev["name"], message=ev["message"], **kwargs)
+            log_event(event)
 
     @staticmethod
     def _out_event(e):
@@ -169,6 +347,8 @@ class EventsSuite(Suite):
                             "event_class": e.event_class, "data": e.data}}
 
     def impl(self, case):
+        if case.get("op") == AGG:
+            return self._agg_impl(case)
         from jade.events import EventsSummary
         key = canon(case)
         with scratch_dir() as out:
@@ -209,6 +389,8 @@ class EventsSuite(Suite):
         return self._order[key]
 
     def model_case(self, case):
+        if case.get("op") == AGG:
+            return self._agg_model_case(case)
         order, order2 = self._orders(case)
         by = {f["file"]: f for f in case["files"] + case.get("decoys", [])}
         files = [[model_event(e) for e in by[n]["events"]] for n in order if n in by]
@@ -218,6 +400,8 @@ class EventsSuite(Suite):
 
     # ------------------------------------------------------------------ direct oracle
     def oracle(self, case, result):
+        if case.get("op") == AGG:
+            return self._agg_oracle(case, result)
         v = []
         if not isinstance(result, dict) or "first" not in result:
             return [Violation("C20", "events.crash", f"EventsSummary failed on well-formed event logs: {result!r}")]
@@ -267,6 +451,8 @@ class EventsSuite(Suite):
         return v
 
     def tags(self, case, result):
+        if case.get("op") == AGG:
+            return self._agg_tags(case, result)
         n = sum(len(f["events"]) for f in case["files"])
         if n == 0:
             return ["trivial.noEvents"]
@@ -296,6 +482,8 @@ class EventsSuite(Suite):
         return t
 
     def shrink(self, case):
+        if case.get("op") == AGG:
+            return self._agg_shrink(case)
         out = []
         for key in ("later", "decoys"):
             if case.get(key):
@@ -325,6 +513,413 @@ class EventsSuite(Suite):
                     ne["data"] = {kk: vv for kk, vv in e["data"].items() if kk in ("uid", "exception")}
                     c["files"][i] = {"file": f["file"], "events": f["events"][:k] + [ne] + f["events"][k + 1:]}
                     out.append(c)
+        return out
+
+
+    # ================================================================== histories (`events.aggregate`)
+    ENV = ("SLURM_NODEID", "SLURM_JOB_ID", "LOCAL_SCRATCH", "SLURM_CPUS_ON_NODE")
+
+    @staticmethod
+    def _real(where, fn):
+        """a call into the code under test: what it raises is a finding, not a harness failure"""
+        try:
+            return fn()
+        except Exception as e:
+            raise RealCodeError(where, e)
+
+    @staticmethod
+    def _agg_config(jobs):
+        """the configuration `config_batch_<n>.json` holds: that batch's jobs in order, one slurm submission group"""
+        from jade.extensions.generic_command import GenericCommandConfiguration, GenericCommandParameters
+        from jade.models import HpcConfig, SubmissionGroup, SubmitterParams
+        cfg = GenericCommandConfiguration()
+        for j in jobs:
+            cfg.add_job(GenericCommandParameters(command=f"work {j}", name=j))
+        params = SubmitterParams(hpc_config=HpcConfig(hpc_type="slurm", hpc={"account": "a"}),
+                                 resource_monitor_type="none", generate_reports=False, poll_interval=1)
+        cfg.append_submission_group(SubmissionGroup(name="default", submitter_params=params))
+        return cfg
+
+    def _job_process(self, out, job, events):
+        """One job process: `jade-internal run <extension> --name <job> --output <output>/job-outputs --config-file …`
+        through the REAL `jade.cli.run.run` (its makedirs, `setup_event_logging(<job dir>/events.log, mode=…)`,
+        `setup_logging`), for an extension whose CLI logs the case's events through `log_event`."""
+        import jade.cli.run as run_mod
+        from jade.common import JOBS_OUTPUT_DIR
+        from jade.loggers import close_event_logging
+        suite = self
+
+        class Cli:
+            @staticmethod
+            def run(config_file, name, output, output_format, verbose):
+                suite._log(events)
+                return 0
+
+        class Reg:
+            def is_registered(self, extension):
+                return True
+
+            def get_extension_class(self, extension, class_type):
+                return Cli
+        aux = out / "verif-aux"
+        aux.mkdir(exist_ok=True)
+        cfg = aux / "job_config.json"
+        if not cfg.exists():
+            cfg.write_text("{}")
+        saved = run_mod.Registry
+        run_mod.Registry = Reg
+        try:
+            run_mod.run.callback("verif_ext", name=job, output=str(out / JOBS_OUTPUT_DIR), config_file=str(cfg),
+                                 output_format="csv", verbose=False)
+        except SystemExit as e:
+            if e.code not in (0, None):
+                raise RuntimeError(f"jade-internal run exited with {e.code}")
+        finally:
+            run_mod.Registry = saved
+            close_event_logging()
+            self._drop_general_logging()
+
+    @staticmethod
+    def _drop_general_logging():
+        """`setup_logging` of cli/run.py leaves file handlers (run.log in the scratch directory) on the package loggers"""
+        for name, lg in list(logging.root.manager.loggerDict.items()):
+            if isinstance(lg, logging.Logger) and name != "_jade_event":
+                for h in list(lg.handlers):
+                    if isinstance(h, logging.FileHandler) and "jadeverif-" in getattr(h, "baseFilename", ""):
+                        lg.removeHandler(h)
+                        h.close()
+
+    def _agg_step(self, st, out, runners, probe, obs, sums):
+        from jade.common import EVENTS_DIR, JOBS_OUTPUT_DIR
+        from jade.events import EventsSummary
+        from jade.jobs.job_runner import JobRunner
+        from jade.loggers import setup_event_logging
+        k = st["s"]
+        # Every process is emulated by pointing the one `_jade_event` logger at that process's file (append mode, as
+        # each jade command does) before its writes: the file contents are what matters.
+        if k == "submitter":     # jade/cli/submit_jobs.py, try_submit_jobs.py, resubmit_jobs.py
+            self._real("submitter", lambda: self._write(out / "submit_jobs_events.log", st["events"], mode="a"))
+        elif k == "other":
+            self._real("other process", lambda: self._write(out / st["file"], st["events"], mode="a"))
+        elif k == "runnerStart":  # jade/cli/run_jobs.py
+            os.environ.update({"SLURM_NODEID": str(st["node"]), "SLURM_JOB_ID": str(7000 + st["rid"]),
+                               "LOCAL_SCRATCH": str(out / "node-scratch"), "SLURM_CPUS_ON_NODE": "2"})
+            cfg = self._agg_config(st["jobs"])
+            with quiet():
+                runner = self._real("JobRunner()", lambda: JobRunner(cfg, str(out), batch_id=str(st["batch"])))
+            runners[st["rid"]] = runner
+            obs["nodefiles"][str(st["rid"])] = os.path.relpath(runner.event_filename, str(out))
+            self._real("run-jobs log", lambda: self._write(runner.event_filename, st["events"], mode="a"))
+        elif k == "runnerLog":
+            runner = runners[st["rid"]]
+            self._real("run-jobs log", lambda: self._write(runner.event_filename, st["events"], mode="a"))
+        elif k == "jobRun":
+            if st["file"]:
+                self._real("jade-internal run", lambda: self._job_process(out, st["job"], st["events"]))
+        elif k == "aggregate":
+            runner = runners[st["rid"]]
+            setup_event_logging(runner.event_filename, mode="a")   # the run-jobs process still has its file open
+            with quiet():
+                self._real("_aggregate_events", runner._aggregate_events)
+        elif k == "kill":
+            runners[st["rid"]]    # the process is gone; its files stay as they are
+        elif k == "consolidate":
+            obs["orders"].append(self._real("glob", lambda: [p.name for p in probe._iter_event_files()]))
+
+            def construct():
+                s = EventsSummary(str(out), preload=bool(st.get("preload")))
+                names = sorted(n[:-len(".json")] for n in s.list_unique_names())
+                evs = [[n, [self._out_event(e) for e in s.list_events(n)]] for n in names]
+                parquet = sorted(p.stem for p in (out / EVENTS_DIR).iterdir() if p.suffix == ".parquet")
+                return {"events": evs, "parquet": parquet}
+            with quiet():
+                sums.append(self._real("EventsSummary()", construct))
+        elif k in ("resubmit", "clear"):   # jade/cli/resubmit_jobs.py: every file of events/ is unlinked
+            d = out / EVENTS_DIR
+            if d.exists():
+                for p in list(d.iterdir()):
+                    p.unlink()
+        else:
+            raise ValueError(f"unknown step {k}")
+
+    def _agg_impl(self, case):
+        from jade.common import JOBS_OUTPUT_DIR
+        from jade.events import EventsSummary
+        from jade.loggers import close_event_logging
+        saved = {k: os.environ.get(k) for k in self.ENV}
+        obs = {"orders": [], "nodefiles": {}, "at": None}
+        sums = []
+        try:
+            with scratch_dir() as out:
+                probe = EventsSummary.__new__(EventsSummary)
+                probe._output_dir = str(out)
+                runners = {}
+                try:
+                    for idx, st in enumerate(case["steps"]):
+                        obs["at"] = idx
+                        self._agg_step(st, out, runners, probe, obs, sums)
+                except RealCodeError as e:
+                    self._order[canon(case)] = obs["orders"]
+                    return json.loads(json.dumps({"model": {"error": err_enum(e.exc)}, "obs": dict(obs, crash=str(e)[:300])}))
+                close_event_logging()
+
+                def lines(p):
+                    with open(p) as f:
+                        return [agg_line(l) for l in f]
+                files = [[p.name, lines(p)] for p in sorted(out.iterdir()) if p.is_file()]
+                jobfiles = []
+                jd = out / JOBS_OUTPUT_DIR
+                for d in (sorted(jd.iterdir()) if jd.is_dir() else []):
+                    if d.is_dir():   # run.log: the job's general log (cli/run.py), not an event file
+                        jobfiles += [[f"{d.name}/{f.name}", lines(f)] for f in sorted(d.iterdir())
+                                     if f.is_file() and f.name != "run.log"]
+                jobfiles.sort(key=lambda x: x[0])
+        finally:
+            close_event_logging()
+            for k, v in saved.items():
+                if v is None:
+                    os.environ.pop(k, None)
+                else:
+                    os.environ[k] = v
+        self._order[canon(case)] = obs["orders"]
+        obs.pop("at")
+        return json.loads(json.dumps({"model": {"files": files, "jobfiles": jobfiles, "summaries": sums}, "obs": obs}))
+
+    def _agg_model_case(self, case):
+        """the history as the Lean driver replays it; the glob orders are the ones the real code saw"""
+        key = canon(case)
+        if key not in self._order:
+            self.setup()
+            try:
+                self._agg_impl(case)
+            finally:
+                self.teardown()
+        orders = list(self._order[key])
+        runners = agg_runners(case)
+
+        def bn(rid):
+            return {"batch": str(runners[rid]["batch"]), "node": str(runners[rid]["node"])}
+        steps = []
+        for st in case["steps"]:
+            k = st["s"]
+            evs = [model_event(e) for e in st.get("events", [])]
+            if k == "submitter":
+                steps += [{"s": "submitterStart"}, {"s": "submitterLog", "events": evs}]
+            elif k == "other":
+                steps.append({"s": "otherLog", "file": st["file"], "events": evs})
+            elif k == "runnerStart":
+                steps.append(dict(bn(st["rid"]), s="runnerStart"))
+                steps.append(dict(bn(st["rid"]), s="runnerLog", events=evs))
+            elif k == "runnerLog":
+                steps.append(dict(bn(st["rid"]), s="runnerLog", events=evs))
+            elif k == "jobRun":
+                steps.append({"s": "jobRun", "job": st["job"], "events": evs if st["file"] else None})
+            elif k == "aggregate":
+                steps.append(dict(bn(st["rid"]), s="aggregate", jobs=list(runners[st["rid"]]["jobs"])))
+            elif k == "consolidate":
+                steps.append({"s": "consolidate", "order": orders.pop(0) if orders else []})
+            elif k in ("resubmit", "clear"):
+                steps.append({"s": k})
+        return {"op": AGG, "steps": steps}
+
+    # ------------------------------------------------------------------ direct oracle for histories
+    def _agg_oracle(self, case, result):
+        """C20 on the real result.  Ground truth: the events the harness handed to `log_event`, process by process.
+        An event a job process wrote counts as "written into the submission's logs" once the runner of a batch that
+        holds the job has aggregated (before that it sits in the per-job file of a batch that has not finished, or
+        that was killed and not run again: it is pending, and must NOT be in the summary yet).  At every
+        construction of the summary on an empty events/ the summary must hold exactly the non-pending events, each as
+        often as it was written; on a non-empty events/ it must equal what is stored (idempotence)."""
+        if not isinstance(result, dict) or "harness_exception" in result:
+            return []
+        model, obs = result.get("model") or {}, result.get("obs") or {}
+        if result.get("timeout"):
+            return [Violation("C20", "events.hang", "the reports code did not terminate on a history of well-formed event logs")]
+        if "error" in model or "summaries" not in model:
+            return [Violation("C20", "events.crash", f"the event aggregation/consolidation raised on well-formed event logs "
+                                                     f"at step {obs.get('at')}: {obs.get('crash')}")]
+        v = []
+        runners = agg_runners(case)
+        visible, pending = [], {}
+        frozen, last_fresh, k = None, None, 0
+        for idx, st in enumerate(case["steps"]):
+            s = st["s"]
+            evs = [model_event(e) for e in st.get("events", [])]
+            if s in ("submitter", "runnerStart", "runnerLog"):
+                visible += evs
+            elif s == "other":
+                if fnmatch.fnmatchcase(st["file"], "*events.log"):
+                    visible += evs
+            elif s == "jobRun":
+                if st["file"]:
+                    pending.setdefault(st["job"], []).extend(evs)
+            elif s == "aggregate":
+                for j in runners[st["rid"]]["jobs"]:
+                    visible += pending.pop(j, [])
+            elif s in ("resubmit", "clear"):
+                frozen = None
+            elif s == "consolidate":
+                if k >= len(model["summaries"]):
+                    break
+                got = model["summaries"][k]
+                k += 1
+                where = f"summary #{k} (step {idx})"
+                if frozen is not None:
+                    if got != frozen:
+                        v.append(Violation("C20", "events.not_idempotent", f"{where}: constructing the summary again on a non-empty events/ changed it"))
+                    continue
+                summ = {n: es for n, es in got["events"]}
+                if len(summ) != len(got["events"]):
+                    v.append(Violation("C20", "events.names", f"{where}: an event name is listed twice"))
+                exp = collections.defaultdict(list)
+                for e in visible:
+                    exp[e["name"]].append(e)
+                exp_json = {n for n in exp if n not in RESOURCE}
+                if set(summ) != exp_json:
+                    v.append(Violation("C20", "events.names", f"{where}: names in the summary {sorted(summ)} differ from the names written {sorted(exp_json)}"))
+                if got["parquet"] != sorted(n for n in exp if n in RESOURCE):
+                    v.append(Violation("C20", "events.parquet", f"{where}: resource-stat tables {got['parquet']} differ from the resource-stat names written"))
+                for n in sorted(exp_json | set(summ)):
+                    g = summ.get(n, [])
+                    ce = collections.Counter(canon(e) for e in exp.get(n, []))
+                    cg = collections.Counter(canon(e) for e in g)
+                    for key in sorted(set(ce) | set(cg)):
+                        if ce[key] > cg[key]:
+                            v.append(Violation("C20", "events.lost", f"{where}: event written {ce[key]}x appears {cg[key]}x in the summary: {key}"))
+                        elif ce[key] < cg[key]:
+                            v.append(Violation("C20", "events.extra", f"{where}: event written {ce[key]}x (not counting events still pending "
+                                                                      f"in per-job files) appears {cg[key]}x in the summary: {key}"))
+                    if any(e.get("name") != n for e in g):
+                        v.append(Violation("C20", "events.names", f"{where}: the list of {n!r} holds an event of another name"))
+                    ts = [e.get("timestamp") for e in g]
+                    if any(a > b for a, b in zip(ts, ts[1:])):
+                        v.append(Violation("C20", "events.unsorted", f"{where}: events named {n!r} are not in timestamp order: {ts}"))
+                # from scratch again on the same logs: same summary (up to the order of events with equal timestamps,
+                # which follows the order in which the glob lists the files; the exact order is compared with the model)
+                snap = collections.Counter(canon(e) for e in visible)
+                norm = canon({"parquet": got["parquet"],
+                              "events": [[n, sorted(es, key=lambda e: (e.get("timestamp"), canon(e)))] for n, es in got["events"]]})
+                if last_fresh is not None and last_fresh[0] == snap and last_fresh[1] != norm:
+                    v.append(Violation("C20", "events.not_idempotent", f"{where}: consolidating the same logs again from scratch changed the summary"))
+                last_fresh = (snap, norm)
+                if got["events"] or got["parquet"]:
+                    frozen = got
+        return v
+
+    def _agg_tags(self, case, result):
+        steps = case["steps"]
+        runners = agg_runners(case)
+        n = sum(len(st.get("events", [])) for st in steps)
+        if n == 0:
+            return ["trivial.noEvents"]
+        t = ["agg.history", f"agg.runners={min(len(runners), 5)}"]
+        active, aggregated_by, started, seen_bn = set(), {}, set(), set()
+        pending_jobs, wrote_since, summary, cleared = set(), False, False, False
+        for i, st in enumerate(steps):
+            s = st["s"]
+            if s == "runnerStart":
+                bnk = (st["batch"], st["node"])
+                if bnk in seen_bn:
+                    t.append("agg.requeueSameBatch")
+                seen_bn.add(bnk)
+                if active:
+                    t.append("agg.batchesOverlap")
+                if st["node"] != 0:
+                    t.append("agg.nodeIdNonzero")
+                active.add(st["rid"])
+            elif s == "jobRun":
+                j = st["job"]
+                if not st["file"]:
+                    t.append("agg.jobWithoutFile")
+                    continue
+                if not st["events"]:
+                    t.append("agg.emptyJobFile")
+                if j in aggregated_by and st["events"] and runners[st["rid"]]["batch"] != aggregated_by[j]:
+                    t.append("agg.rerunLaterBatch")
+                if j in pending_jobs and st["rid"] not in active - {st["rid"]} and j in started:
+                    t.append("agg.rerunOnPendingFile")
+                pending_jobs.add(j)
+                started.add(j)
+            elif s == "aggregate":
+                active.discard(st["rid"])
+                for j in runners[st["rid"]]["jobs"]:
+                    if j in pending_jobs:
+                        aggregated_by[j] = runners[st["rid"]]["batch"]
+                        pending_jobs.discard(j)
+            elif s == "kill":
+                active.discard(st["rid"])
+                t.append("agg.killedBeforeAggregate")
+            elif s == "consolidate":
+                if summary and not cleared and wrote_since:
+                    t.append("agg.staleSummary")
+                if any(x["s"] in WRITERS and x.get("events") for x in steps[i + 1:]):
+                    t.append("agg.consolidateMid")
+                if pending_jobs:
+                    t.append("agg.pendingAtConsolidate")
+                summary, cleared, wrote_since = True, False, False
+            elif s == "resubmit":
+                if summary:
+                    t.append("agg.resubmitClearsEvents")
+                cleared, summary = True, False
+            elif s == "clear":
+                if summary:
+                    t.append("agg.fromScratchAgain")
+                cleared, summary = True, False
+            if s in WRITERS and st.get("events"):
+                wrote_since = True
+            if s == "other":
+                t.append("agg.otherProcess" if fnmatch.fnmatchcase(st["file"], "*events.log") else "agg.decoyFile")
+        allev = [canon(model_event(e)) for st in steps for e in st.get("events", [])]
+        if len(set(allev)) < len(allev):
+            t.append("agg.identicalEvents")
+        per = [{(e["name"], e["timestamp"]) for e in st.get("events", [])} for st in steps if st["s"] in WRITERS]
+        if any(a & b for i, a in enumerate(per) for b in per[i + 1:]):
+            t.append("agg.tsCollisionAcrossProcesses")
+        if any(e["name"] in RESOURCE for st in steps for e in st.get("events", [])):
+            t.append("agg.resourceStat")
+        if isinstance(result, dict) and (result.get("model") or {}).get("jobfiles"):
+            t.append("agg.jobFilesLeftAtEnd")
+        return sorted(set(t))
+
+    def _agg_shrink(self, case):
+        steps = case["steps"]
+        out = []
+
+        def cand(new_steps):
+            out.append({**case, "steps": new_steps})
+        # whole runners
+        for rid in agg_runners(case):
+            cand([st for st in steps if st.get("rid") != rid])
+        # trailing constructions / single steps that nothing refers to
+        cons = [i for i, st in enumerate(steps) if st["s"] == "consolidate"]
+        for i in reversed(cons):
+            cand(steps[:i] + steps[i + 1:])
+        for i, st in enumerate(steps):
+            if st["s"] in ("submitter", "other", "runnerLog", "jobRun", "resubmit", "clear"):
+                cand(steps[:i] + steps[i + 1:])
+        # jobs of a configuration that never run
+        for i, st in enumerate(steps):
+            if st["s"] == "runnerStart":
+                used = {x["job"] for x in steps if x["s"] == "jobRun"}
+                keep = [j for j in st["jobs"] if j in used]
+                if keep and keep != st["jobs"]:
+                    cand(steps[:i] + [{**st, "jobs": keep}] + steps[i + 1:])
+        # events
+        for i, st in enumerate(steps):
+            evs = st.get("events") or []
+            n = len(evs)
+            cuts = [(0, n)] if n > 1 else []
+            cuts += [(0, n // 2), (n // 2, n)] if n > 3 else []
+            cuts += [(k, k + 1) for k in range(n)]
+            for a, b in cuts:
+                cand(steps[:i] + [{**st, "events": evs[:a] + evs[b:]}] + steps[i + 1:])
+        for i, st in enumerate(steps):
+            for k, e in enumerate(st.get("events") or []):
+                if e["name"] not in RESOURCE and (set(e["data"]) - {"uid", "exception"} or e.get("clock")):
+                    ne = dict(e, clock=False)
+                    ne["data"] = {kk: vv for kk, vv in e["data"].items() if kk in ("uid", "exception")}
+                    evs = st["events"]
+                    cand(steps[:i] + [{**st, "events": evs[:k] + [ne] + evs[k + 1:]}] + steps[i + 1:])
         return out
 
 
